@@ -118,7 +118,7 @@ def main(prop: str, tier: str, rep: common.Reporter | None = None, finish: bool 
             if behs and len(samples) < 3:
                 samples.append({'host': h.name, 'behaviour': json.loads(behs[len(behs) // 2])})
             jobs = [(h.name, sorted(check), plan['layouts'], ch) for ch in common.chunked(list(enumerate(behs)), 100)]
-            for nrep, nsteps, ndrift, out in pool.imap_unordered(_replay_chunk, jobs):
+            for nrep, nsteps, ndrift, out in common.gmap(pool, rep, _replay_chunk, jobs):
                 drift += ndrift
                 replays += nrep
                 steps += nsteps
